@@ -283,6 +283,8 @@ def rule_S_LOAD_DUMP(ctx, repo):
                 if e.kind == 'SUPDATE':
                     n_key += 1
                     d = e.args[1] if len(e.args) == 2 else None
+                    if len(e.args) == 3 and e.args[0] == C('__setitem__'):
+                        d = ('dict', ((e.args[1], e.args[2]),))           # self[arg] = value is self.update({arg: value})
                     good = d is not None and d[0] == 'dict' and len(d[1]) == 1
                     if good:
                         k, v = d[1][0]
